@@ -159,6 +159,400 @@ theorem prefix_returns_nil_nil :
 theorem prefix_empty_file_nil_nil :
     openOrWritePreFix ToyPem none true (.file []) = .ok (⟨none, false⟩, .file []) := by decide
 
+/-! ### read-only uses of a key file: the callers and sibling sites
+
+Read-only: `read-private` / `derive-public` (`readPrivPeer`), `read-public` / `derive-ssh-public`
+(`readPubPeer`) and the `priv_key_pem` field of the Subscribe API (`privPeerOfPem`). None of these
+takes the random generator or the write flag as an argument: by construction they cannot draw a
+random identity or create a file; the theorems say what they return.
+Callers of `OpenOrWritePrivKey`: `envelope seal` / `unseal` (`loadPubKey` / `loadPrivKey`) and
+`runDaemon` (`daemonKey`): a missing path gets a new key that is written and used, exactly as the
+property describes; they return a usable key or an error, and on success the key is the one in
+the file afterwards. -/
+
+/-- A read-only use never panics. -/
+theorem read_only_never_panics (P : PemCodec) (fs : FsState) (b : Bytes) :
+    readPrivPeer P fs ≠ .panic ∧ readPubPeer P fs ≠ .panic ∧ privPeerOfPem P b ≠ .panic := by
+  have hpriv : ∀ b, privPeerOfPem P b ≠ .panic := by
+    intro b
+    unfold privPeerOfPem
+    cases h : parsePrivKeyPem P b with
+    | panic => exact absurd h (parsePrivKeyPem_ne_panic P b)
+    | err => simp
+    | ok o =>
+      cases o with
+      | none => simp
+      | some k =>
+        have hl : k.length = 64 := parsePrivKeyPem_ok_length P b k h
+        simp [newPeer, getPublic_of_length k (by omega)]
+  have hpub : ∀ b, parsePubKeyPem P b ≠ .panic := parsePubKeyPem_ne_panic P
+  refine ⟨?_, ?_, hpriv b⟩
+  · unfold readPrivPeer
+    cases fs <;> simp [readFile, hpriv]
+  · unfold readPubPeer
+    cases fs with
+    | file c =>
+      simp only [readFile]
+      cases h : parsePubKeyPem P c with
+      | panic => exact absurd h (hpub c)
+      | err => simp
+      | ok o => cases o <;> simp
+    | _ => simp [readFile]
+
+/-- The identity a private-key reader reports is the identity of the key IN THE FILE: a success
+means the path holds a file whose PEM block parses to a private key `k`, and the peer is `k`'s. -/
+theorem read_private_identity_from_file (P : PemCodec) (fs : FsState) (peer : PeerInfo)
+    (h : readPrivPeer P fs = .ok peer) :
+    ∃ b k, fs = .file b ∧ parsePrivKeyPem P b = .ok (some k) ∧ peer.priv = some k ∧
+      getPublic k = .ok peer.pub ∧ peer.id = idFromPublicKey peer.pub := by
+  unfold readPrivPeer at h
+  cases fs with
+  | file b =>
+    simp only [readFile] at h
+    unfold privPeerOfPem at h
+    cases hp : parsePrivKeyPem P b with
+    | panic => rw [hp] at h; cases h
+    | err => rw [hp] at h; cases h
+    | ok o =>
+      rw [hp] at h
+      cases o with
+      | none => cases h
+      | some k =>
+        simp only [newPeer] at h
+        cases hg : getPublic k with
+        | ok p =>
+          rw [hg] at h
+          injection h with h
+          subst h
+          exact ⟨b, k, rfl, hp, rfl, hg, rfl⟩
+        | err => rw [hg] at h; cases h
+        | panic => rw [hg] at h; cases h
+  | missing => simp [readFile] at h
+  | statErr => simp [readFile] at h
+  | dir => simp [readFile] at h
+
+/-- The same for the public-key reader (which accepts a private- or a public-key PEM). -/
+theorem read_public_identity_from_file (P : PemCodec) (fs : FsState) (peer : PeerInfo)
+    (h : readPubPeer P fs = .ok peer) :
+    ∃ b p, fs = .file b ∧ parsePubKeyPem P b = .ok (some p) ∧ peer = ⟨none, p, idFromPublicKey p⟩ := by
+  unfold readPubPeer at h
+  cases fs with
+  | file b =>
+    simp only [readFile] at h
+    cases hp : parsePubKeyPem P b with
+    | panic => rw [hp] at h; cases h
+    | err => rw [hp] at h; cases h
+    | ok o =>
+      rw [hp] at h
+      cases o with
+      | none => cases h
+      | some p => injection h with h; exact ⟨b, p, rfl, hp, h.symm⟩
+  | missing => simp [readFile] at h
+  | statErr => simp [readFile] at h
+  | dir => simp [readFile] at h
+
+/-- A missing path, an unreadable path, a directory, an empty file, a file without a PEM block or
+with a block of another type: every read-only use reports an error — not an absent key, not a
+fresh identity. -/
+theorem read_only_non_key_is_error (P : PemCodec) (fs : FsState)
+    (h : fs = .missing ∨ fs = .statErr ∨ fs = .dir ∨ ∃ b, fs = .file b ∧
+      (P.decode b = none ∨ ∃ t d r, P.decode b = some (t, d, r) ∧ t ≠ privPemType ∧ t ≠ pubPemType)) :
+    readPrivPeer P fs = .err ∧ readPubPeer P fs = .err := by
+  rcases h with rfl | rfl | rfl | ⟨b, rfl, hb⟩
+  · exact ⟨rfl, rfl⟩
+  · exact ⟨rfl, rfl⟩
+  · exact ⟨rfl, rfl⟩
+  · rcases hb with hb | ⟨t, d, r, hb, h1, h2⟩
+    · have h1 : parsePrivKeyPem P b = .ok none := by unfold parsePrivKeyPem; rw [hb]
+      have h2 : parsePubKeyPem P b = .ok none := by unfold parsePubKeyPem parseKeyPem; rw [hb]
+      simp [readPrivPeer, readPubPeer, readFile, privPeerOfPem, h1, h2]
+    · have e1 : parsePrivKeyPem P b = .err := by unfold parsePrivKeyPem; rw [hb]; simp [h1]
+      have e2 : parsePubKeyPem P b = .err := by unfold parsePubKeyPem parseKeyPem; rw [hb]; simp [h1, h2]
+      simp [readPrivPeer, readPubPeer, readFile, privPeerOfPem, e1, e2]
+
+/-- A private-key reader also rejects a PUBLIC-key PEM and a private block with a malformed body. -/
+theorem read_private_rejects_non_private (P : PemCodec) (b t d r : Bytes)
+    (hb : P.decode b = some (t, d, r)) (h : t ≠ privPemType ∨ unmarshalPrivateKey d = .err) :
+    readPrivPeer P (.file b) = .err ∧ privPeerOfPem P b = .err := by
+  have hp : parsePrivKeyPem P b = .err := by
+    unfold parsePrivKeyPem; rw [hb]
+    rcases h with h | h
+    · simp [h]
+    · by_cases ht : t ≠ privPemType
+      · simp [ht]
+      · simp [ht, h]
+  simp [readPrivPeer, readFile, privPeerOfPem, hp]
+
+/-- `runDaemon`: the daemon starts only under the key that is in the file afterwards — the key
+already there (file untouched), or, for a missing path, the freshly written one (which reloads
+to itself by `missing_writes_and_reloads`); every other state is an error and the daemon does
+not start. -/
+theorem daemon_key_is_file_key (P : PemCodec) (gen : Option Bytes) (w : Bool) (fs fs' : FsState) (k : Bytes)
+    (h : daemonKey P gen w fs = (.ok k, fs')) :
+    (fs = .missing ∧ gen = some k ∧ w = true ∧ fs' = .file (marshalPrivKeyPem P k)) ∨
+    (∃ b, fs = .file b ∧ parsePrivKeyPem P b = .ok (some k) ∧ fs' = fs) := by
+  unfold daemonKey at h
+  cases ho : openOrWrite P gen w fs with
+  | panic => rw [ho] at h; simp at h
+  | err => rw [ho] at h; simp at h
+  | ok rf =>
+    obtain ⟨r, f⟩ := rf
+    rw [ho] at h
+    simp only at h
+    by_cases he : r.err = true
+    · simp [he] at h
+    · have he' : r.err = false := by cases hh : r.err <;> simp_all
+      simp only [he', Bool.false_eq_true, ↓reduceIte] at h
+      cases hk : r.key with
+      | none => rw [hk] at h; simp at h
+      | some k' =>
+        rw [hk] at h
+        simp only [Prod.mk.injEq, Res.ok.injEq] at h
+        obtain ⟨rfl, rfl⟩ := h
+        unfold openOrWrite at ho
+        cases fs with
+        | missing =>
+          cases gen with
+          | none => simp at ho; obtain ⟨rfl, _⟩ := ho; simp at hk
+          | some g =>
+            simp only at ho
+            cases w with
+            | true =>
+              simp at ho
+              obtain ⟨rfl, rfl⟩ := ho
+              simp at hk
+              subst hk
+              exact .inl ⟨rfl, rfl, rfl, rfl⟩
+            | false => simp at ho; obtain ⟨rfl, _⟩ := ho; simp at he'
+        | statErr => simp at ho; obtain ⟨rfl, _⟩ := ho; simp at hk
+        | dir => simp at ho; obtain ⟨rfl, _⟩ := ho; simp at hk
+        | file b =>
+          simp only at ho
+          cases hp : parsePrivKeyPem P b with
+          | panic => rw [hp] at ho; cases ho
+          | err => rw [hp] at ho; simp at ho; obtain ⟨rfl, _⟩ := ho; simp at hk
+          | ok o =>
+            rw [hp] at ho
+            cases o with
+            | none => simp at ho; obtain ⟨rfl, _⟩ := ho; simp at hk
+            | some k2 =>
+              simp at ho
+              obtain ⟨rfl, rfl⟩ := ho
+              simp at hk
+              subst hk
+              exact .inr ⟨b, rfl, hp, rfl⟩
+
+/-- …and it never panics (the `(nil, nil)` that made `NewDaemon` dereference nil is gone). -/
+theorem daemon_never_panics (P : PemCodec) (gen : Option Bytes) (w : Bool) (fs : FsState) :
+    (daemonKey P gen w fs).1 ≠ .panic := by
+  unfold daemonKey
+  cases ho : openOrWrite P gen w fs with
+  | panic => exact absurd ho (never_panics P gen w fs)
+  | err => simp
+  | ok rf =>
+    obtain ⟨r, f⟩ := rf
+    simp only
+    by_cases he : r.err = true
+    · simp [he]
+    · have he' : r.err = false := by cases hh : r.err <;> simp_all
+      simp only [he', Bool.false_eq_true, ↓reduceIte]
+      cases hk : r.key with
+      | some k => simp
+      | none =>
+        rcases key_or_error P gen w fs f r ho with h | h
+        · exact absurd hk h
+        · rw [he'] at h; cases h
+
+/-! ### the envelope loaders (`envelope seal` / `unseal`): callers of `OpenOrWritePrivKey` -/
+
+/-- `loadPrivKeys` returns exactly what `runDaemon` starts under: its fall-back (re-reading the file
+after an error) never finds a key that `OpenOrWritePrivKey` did not return. -/
+theorem loadPrivKey_eq_daemonKey (P : PemCodec) (gen : Option Bytes) (w : Bool) (fs : FsState) :
+    loadPrivKey P gen w fs = daemonKey P gen w fs := by
+  unfold loadPrivKey daemonKey openOrWrite
+  cases fs with
+  | missing =>
+    cases gen with
+    | none => simp [readFile]
+    | some k => cases w <;> simp [readFile]
+  | statErr => simp [readFile]
+  | dir => simp [readFile]
+  | file b =>
+    simp only
+    cases hp : parsePrivKeyPem P b with
+    | panic => simp
+    | err => simp [readFile, hp]
+    | ok o => cases o <;> simp [readFile, hp]
+
+/-- A loader returns a usable key or an error — never a panic (in particular never the nil
+dereference a `(nil, nil)` from `OpenOrWritePrivKey` would cause), given that the generator yields
+64-byte keys. -/
+theorem load_keys_never_panic (P : PemCodec) (gen : Option Bytes) (w : Bool) (fs : FsState)
+    (hg : ∀ k, gen = some k → k.length = 64) :
+    (loadPrivKey P gen w fs).1 ≠ .panic ∧ (loadPubKey P gen w fs).1 ≠ .panic := by
+  refine ⟨by rw [loadPrivKey_eq_daemonKey]; exact daemon_never_panics P gen w fs, ?_⟩
+  unfold loadPubKey
+  cases ho : openOrWrite P gen w fs with
+  | panic => exact absurd ho (never_panics P gen w fs)
+  | err => simp
+  | ok rf =>
+    obtain ⟨r, f⟩ := rf
+    simp only
+    by_cases he : r.err = true
+    · simp [he]
+    · have he' : r.err = false := by cases hh : r.err <;> simp_all
+      simp only [he', Bool.false_eq_true, ↓reduceIte]
+      obtain ⟨k, hk, hl⟩ := no_error_means_usable_key P gen w fs f r hg ho he'
+      rw [hk]
+      simp [getPublic_of_length k (by omega)]
+
+/-- On success the private key a loader returns is the one in the file AFTERWARDS: the key already
+there (file untouched) or, for a missing path, the generated key, which has been written. -/
+theorem load_priv_key_is_file_key (P : PemCodec) (gen : Option Bytes) (w : Bool) (fs fs' : FsState) (k : Bytes)
+    (h : loadPrivKey P gen w fs = (.ok k, fs')) :
+    (fs = .missing ∧ gen = some k ∧ w = true ∧ fs' = .file (marshalPrivKeyPem P k)) ∨
+    (∃ b, fs = .file b ∧ parsePrivKeyPem P b = .ok (some k) ∧ fs' = fs) := by
+  rw [loadPrivKey_eq_daemonKey] at h
+  exact daemon_key_is_file_key P gen w fs fs' k h
+
+/-- …and the public key `seal` encrypts to is the public key of that private key. -/
+theorem load_pub_key_is_file_key (P : PemCodec) (gen : Option Bytes) (w : Bool) (fs fs' : FsState) (p : Bytes)
+    (h : loadPubKey P gen w fs = (.ok p, fs')) :
+    ∃ k, loadPrivKey P gen w fs = (.ok k, fs') ∧ getPublic k = .ok p := by
+  rw [loadPrivKey_eq_daemonKey]
+  unfold loadPubKey at h
+  unfold daemonKey
+  cases ho : openOrWrite P gen w fs with
+  | panic => rw [ho] at h; simp at h
+  | err => rw [ho] at h; simp at h
+  | ok rf =>
+    obtain ⟨r, f⟩ := rf
+    rw [ho] at h
+    simp only at h ⊢
+    by_cases he : r.err = true
+    · simp [he] at h
+    · have he' : r.err = false := by cases hh : r.err <;> simp_all
+      simp only [he', Bool.false_eq_true, ↓reduceIte] at h ⊢
+      cases hk : r.key with
+      | none => rw [hk] at h; simp at h
+      | some k =>
+        rw [hk] at h
+        simp only [Prod.mk.injEq] at h
+        obtain ⟨hp, rfl⟩ := h
+        refine ⟨k, rfl, ?_⟩
+        cases hg : getPublic k with
+        | ok p' => rw [hg] at hp; injection hp with hp; rw [hp]
+        | err => rw [hg] at hp; cases hp
+        | panic => rw [hg] at hp; cases hp
+
+/-- A missing path gets a new key that is WRITTEN, and loading the path again — whatever the generator
+or the disk would do then — gives the same key, hence the same identity, without touching the file. -/
+theorem load_missing_writes_and_reloads (P : PemCodec) (L : PemLaw P) (k : Bytes) (hk : k.length = 64) :
+    loadPrivKey P (some k) true .missing = (.ok k, .file (marshalPrivKeyPem P k)) ∧
+    loadPubKey P (some k) true .missing = (.ok (k.drop 32), .file (marshalPrivKeyPem P k)) ∧
+    ∀ gen' w', loadPrivKey P gen' w' (.file (marshalPrivKeyPem P k)) = (.ok k, .file (marshalPrivKeyPem P k)) ∧
+      loadPubKey P gen' w' (.file (marshalPrivKeyPem P k)) = (.ok (k.drop 32), .file (marshalPrivKeyPem P k)) := by
+  have hr := (missing_writes_and_reloads P L k hk).2
+  have hg := getPublic_of_length k (by omega)
+  refine ⟨?_, ?_, ?_⟩
+  · simp [loadPrivKey, openOrWrite]
+  · simp [loadPubKey, openOrWrite, hg]
+  · intro gen' w'
+    constructor
+    · simp [loadPrivKey, hr gen' w']
+    · simp [loadPubKey, hr gen' w', hg]
+
+/-- If the new key cannot be written the loaders report an error (no key is used that is not on
+disk), and nothing is created. -/
+theorem load_missing_unwritable_is_error (P : PemCodec) (k : Bytes) :
+    loadPrivKey P (some k) false .missing = (.err, .missing) ∧
+    loadPubKey P (some k) false .missing = (.err, .missing) := by
+  constructor <;> simp [loadPrivKey, loadPubKey, openOrWrite, readFile]
+
+/-- An existing path that holds no private key — unreadable, a directory, an empty file, no PEM block,
+a block of another type (a PUBLIC key included), a malformed body — is an error for both loaders,
+and is left exactly as it was. -/
+theorem load_non_key_path_is_error (P : PemCodec) (gen : Option Bytes) (w : Bool) (fs : FsState)
+    (h : fs = .statErr ∨ fs = .dir ∨ ∃ b, fs = .file b ∧ (P.decode b = none ∨ (∃ t d r, P.decode b = some (t, d, r) ∧
+      (t ≠ privPemType ∨ unmarshalPrivateKey d = .err)))) :
+    loadPrivKey P gen w fs = (.err, fs) ∧ loadPubKey P gen w fs = (.err, fs) := by
+  rcases h with rfl | rfl | ⟨b, rfl, hb⟩
+  · constructor <;> simp [loadPrivKey, loadPubKey, openOrWrite, readFile]
+  · constructor <;> simp [loadPrivKey, loadPubKey, openOrWrite, readFile]
+  · have ho := non_key_file_is_error P gen w b hb
+    have hp : parsePrivKeyPem P b = .ok none ∨ parsePrivKeyPem P b = .err := by
+      unfold parsePrivKeyPem
+      rcases hb with hb | ⟨t, d, r, hb, ht | hu⟩
+      · left; simp [hb]
+      · right; simp [hb, ht]
+      · right
+        by_cases ht : t ≠ privPemType
+        · simp [hb, ht]
+        · simp [hb, ht, hu]
+    constructor
+    · unfold loadPrivKey
+      rw [ho]
+      rcases hp with hp | hp <;> simp [readFile, hp]
+    · unfold loadPubKey
+      rw [ho]
+      simp
+
+/-- What was wrong before the fixes (replayed on the real code by reverting each fix):
+`read-private` on a file without a PEM block printed the identity of a freshly drawn RANDOM key;
+the Subscribe API and `read-public` dereferenced nil. -/
+theorem prefix_read_only_defects (k : Bytes) (hk : k.length = 64) (b : Bytes) (hb : ToyPem.decode b = none) :
+    readPrivPeerPreFix ToyPem (some k) (.file b) = .ok ⟨some k, k.drop 32, idFromPublicKey (k.drop 32)⟩ ∧
+    subscribePeerPreFix ToyPem (some k) b = .panic ∧
+    readPubPeerPreFix ToyPem (.file b) = .panic := by
+  have h1 : parsePrivKeyPem ToyPem b = .ok none := by unfold parsePrivKeyPem; rw [hb]
+  have h2 : parsePubKeyPem ToyPem b = .ok none := by unfold parsePubKeyPem parseKeyPem; rw [hb]
+  have hg := getPublic_of_length k (by omega)
+  refine ⟨?_, ?_, ?_⟩
+  · simp [readPrivPeerPreFix, readFile, h1, newPeer, hg]
+  · simp [subscribePeerPreFix, h1]
+  · simp [readPubPeerPreFix, readFile, h2]
+
+/-- The pre-fix `read-private` therefore violates "the identity comes from the file". -/
+theorem prefix_read_private_random_identity_false :
+    ¬ (∀ (P : PemCodec) gen fs peer, readPrivPeerPreFix P gen fs = .ok peer →
+        ∃ b k, fs = .file b ∧ parsePrivKeyPem P b = .ok (some k) ∧ peer.priv = some k) := by
+  intro hall
+  have hd : ToyPem.decode [] = none := by decide
+  obtain ⟨h, _⟩ := prefix_read_only_defects (List.replicate 64 7) (by simp) [] hd
+  obtain ⟨b, k, hfs, hp, _⟩ := hall ToyPem (some (List.replicate 64 7)) (.file []) _ h
+  injection hfs with hfs
+  subst hfs
+  have : parsePrivKeyPem ToyPem [] = .ok none := by unfold parsePrivKeyPem; rw [hd]
+  rw [this] at hp
+  cases hp
+
+/-- The key file `OpenOrWritePrivKey` writes for a missing path is read back by the read-only
+uses to the identity of exactly that key. -/
+theorem read_only_of_written_key (P : PemCodec) (L : PemLaw P) (k : Bytes) (hk : k.length = 64) :
+    readPrivPeer P (.file (marshalPrivKeyPem P k)) = .ok ⟨some k, k.drop 32, idFromPublicKey (k.drop 32)⟩ ∧
+    loadPrivKey P none false (.file (marshalPrivKeyPem P k)) = (.ok k, .file (marshalPrivKeyPem P k)) ∧
+    daemonKey P none false (.file (marshalPrivKeyPem P k)) = (.ok k, .file (marshalPrivKeyPem P k)) := by
+  have hp : parsePrivKeyPem P (marshalPrivKeyPem P k) = .ok (some k) := by
+    unfold parsePrivKeyPem marshalPrivKeyPem
+    rw [L.rt _ _ (.inl rfl)]
+    simp [Bifrost.Config.unmarshal_marshalPrivateKey k hk]
+  refine ⟨?_, ?_, ?_⟩
+  · unfold readPrivPeer readFile privPeerOfPem
+    simp only [hp, newPeer, getPublic_of_length k (by omega)]
+  · unfold loadPrivKey openOrWrite
+    simp only [hp]
+    simp
+  · unfold daemonKey openOrWrite
+    simp only [hp]
+    simp
+
+/-- Non-vacuity: a valid key file is read back to its identity; an empty file and a missing path
+are errors. -/
+example : readPrivPeer ToyPem (.file (marshalPrivKeyPem ToyPem (List.replicate 64 3))) =
+    .ok ⟨some (List.replicate 64 3), (List.replicate 64 3).drop 32, idFromPublicKey ((List.replicate 64 3).drop 32)⟩ ∧
+    readPrivPeer ToyPem (.file []) = .err ∧ readPrivPeer ToyPem .missing = .err :=
+  ⟨(read_only_of_written_key ToyPem toyPem_law _ (by simp)).1, by decide, rfl⟩
+
 /-- The PEM block type of key files is the one in the source (re-extracted on every run). -/
 theorem pem_type_matches_source : Gen.ConfigConsts.privPemType = privPemType := by decide
 
